@@ -406,12 +406,14 @@ def run(ctx):
 
     outs, dyn, init = oblrules.run(ctx, "TOTAL", entries, lossy=False, lemmas=lemmas, trusts=trusts, scope=scope, floor_bodies=20,
                                    kinds={"OVF", "DIV0", "BOUNDS", "BOUNDSCALL", "RANGEIDX", "UNWRAP", "PANIC", "LIBPRE", "MAPIDX", "UNSAFE", "ASSERT"},
-                                   assume_filter=lambda b, o: ("SIZE-BOUND", "sizes are below 2^31") if (o.kind == "OVF" and o.sub in ("Add", "Mul") and _usize_op(b, o)) else None,
+                                   assume_filter=lambda b, o: ("SIZE-BOUND", "sizes are below 2^31") if (o.kind == "OVF" and o.sub in ("Add", "Mul", "Add-call", "Mul-call") and _usize_op(b, o)) else None,
                                    skip=lambda b: b.file == "src/surface.rs" and b.name == "view_bounds",
                                    desc="no reachable panic/overflow/bounds/unwrap/precondition failure in view layout and rendering")
 
 
 def _usize_op(body, o):
+    if o.term["k"] == "call":
+        return all(re.sub(r"^&('\w+ )?", "", t) == "usize" for t in o.term["arg_tys"])
     m = o.term["msg"]
     for key in ("a", "b"):
         op = m.get(key)
